@@ -231,9 +231,10 @@ def cmp_mirror(sn, m, path="/"):
     for (k, v), (ex, l, v2) in zip(sn["extras"], m["qual"]):
         if ":" not in k or X.expand(k, m["scope"]) != ex or k.split(":", 1)[1] != l or v != v2:
             return ("extras", f"{here}: qualified attribute {k!r}={v!r} does not name {ex!r}={v2!r} by a prefix in scope", None)
-    if sn["content"] != m["content"]:
+    # None and the empty string are not distinguished (an empty CDATA section gives '' in lxml)
+    if (sn["content"] or None) != m["content"]:
         return ("content", f"{here}: content {sn['content']!r} != {m['content']!r}", sn["content"])
-    if sn["tail"] != m["tail"]:
+    if (sn["tail"] or None) != m["tail"]:
         return ("tail", f"{here}: tail {sn['tail']!r} != {m['tail']!r}", sn["tail"])
     if len(sn["kids"]) != len(m["kids"]):
         return ("children", f"{here}: {len(sn['kids'])} children != {len(m['kids'])}", None)
@@ -249,6 +250,9 @@ def cmp_chain(a, b, path="/"):
     here = path + b["name"]
     if a["name"] != b["name"] or a["prefix"] != b["prefix"]:
         return ("name", f"{here}: name/prefix differ")
+    if a["attrs"] != b["attrs"] or a["extras"] != b["extras"]:
+        if [[k, attr_norm(v)] for k, v in a["attrs"] + a["extras"]] == [[k, attr_norm(v)] for k, v in b["attrs"] + b["extras"]]:
+            return ("attr-value-whitespace", f"{here}: attribute values {b['attrs'] + b['extras']!r} came back as {a['attrs'] + a['extras']!r}")
     if a["attrs"] != b["attrs"]:
         return ("attributes", f"{here}: attributes {a['attrs']!r} != {b['attrs']!r}")
     if a["extras"] != b["extras"]:
@@ -268,6 +272,26 @@ def cmp_chain(a, b, path="/"):
         if r:
             return r
     return None
+
+
+def has_default_ns(raw):
+    return any(k == "xmlns" for k, _ in raw["attrs"]) or any(has_default_ns(k) for k in raw["kids"])
+
+
+def attr_norm(v):
+    return v.replace("\t", " ").replace("\n", " ").replace("\r", " ")
+
+
+def alias_class(raw, scope):
+    """some element carries a qualified attribute whose URI is bound to >= 2 prefixes in scope"""
+    sc = dict(scope)
+    sc.update((k[6:], v) for k, v in raw["attrs"] if k.startswith("xmlns:"))
+    for k, v in raw["attrs"]:
+        if ":" in k and not k.startswith("xmlns:"):
+            p = k.split(":", 1)[0]
+            if p != "xml" and sum(1 for u in sc.values() if u == sc.get(p)) >= 2:
+                return True
+    return any(alias_class(k, sc) for k in raw["kids"] if k["kind"] == "elem")
 
 
 DIRECTED = [
@@ -317,7 +341,7 @@ def run(ctx):
             continue
         ctx.count("docs:" + origin)
         in_class = origin in ("grammar", "directed")
-        if "xmlns=" not in doc:
+        if not has_default_ns(raw) and "<![CDATA[]]>" not in doc:
             pcases.append(cstr(doc))
             pw_raw.append("(Some " + X.coq_xnode(raw) + ")")
             pw_lx.append("(Some " + X.coq_xel(lx) + ")")
@@ -352,9 +376,6 @@ def run(ctx):
             if r:
                 field, what, val = r
                 key = "C08:mirror:" + field
-                if field in ("content", "tail") and clean and isinstance(val, str) and re.fullmatch("[ \xa0\t]+\n", val):
-                    key = "C08:clean:trailing-newline-kept"
-                    what += " (spaces/tabs/nbsp followed by a final newline are kept: the policy regex ends in '$', which also matches before a trailing newline)"
                 ctx.fail(key, what, dict(rep, observed=sn, difference=what))
             # the chain
             try:
@@ -369,7 +390,11 @@ def run(ctx):
             if r:
                 field, what = r
                 key = "C08:stable:" + field
-                if field == "extras-alias":
+                if field == "attr-value-whitespace":
+                    key = "C08:stable:attr-value-tab-newline"
+                    what += (" (a tab/newline/CR in an attribute value, written in the source as a character reference, is exported "
+                             "literally and normalised to a space by the second parse)")
+                if field == "extras-alias" and alias_class(raw, {}):
                     key = "C08:stable:alias-prefix-redeclared"
                     what += (" (same expanded name under another prefix: two prefixes are bound to one URI and the order of the in-scope "
                              "bindings changed because a redundant re-declaration was not re-exported)")
